@@ -567,11 +567,24 @@ impl Broker {
 }
 
 /// run `f` on another thread with a deadline: None = it did not finish (hang)
+static TIMEOUTS: std::sync::atomic::AtomicUsize = std::sync::atomic::AtomicUsize::new(0);
+/// how many `with_deadline` calls of this process did not finish in time: every one of them is
+/// reported (a hang); once there are several the verdict is settled and a driver need not
+/// spend its remaining scenarios waiting for more
+pub fn timeouts() -> usize {
+    TIMEOUTS.load(std::sync::atomic::Ordering::SeqCst)
+}
+pub const ENOUGH_TIMEOUTS: usize = 4;
+
 pub fn with_deadline<T: Send + 'static, F: FnOnce() -> T + Send + 'static>(f: F, timeout: Duration) -> Option<T> {
     let (tx, rx) = std::sync::mpsc::channel();
     std::thread::spawn(move || {
         let r = f();
         let _ = tx.send(r);
     });
-    rx.recv_timeout(timeout).ok()
+    let r = rx.recv_timeout(timeout).ok();
+    if r.is_none() {
+        TIMEOUTS.fetch_add(1, std::sync::atomic::Ordering::SeqCst);
+    }
+    r
 }
